@@ -1,10 +1,26 @@
+use moc::deser::ascii::from_ascii_ivoa;
+use moc::moc::{CellMOCIntoIterator, CellMOCIterator, CellOrCellRangeMOCIntoIterator, CellOrCellRangeMOCIterator, RangeMOCIterator, RangeMOCIntoIterator};
 use moc::moc::range::RangeMOC;
 use moc::qty::{Hpx, Time};
 use moc::ranges::Ranges;
 fn main() {
-  let a: RangeMOC<u64, Time<u64>> = RangeMOC::new(2, Ranges::new_unchecked(vec![0..10]).into());
-  let b: RangeMOC<u64, Time<u64>> = RangeMOC::new(2, Ranges::new_unchecked(vec![20..30]).into());
-  println!("a minus b = {:?}", a.minus(&b).moc_ranges().0);
-  println!("b minus a = {:?}", b.minus(&a).moc_ranges().0);
-  let _h: Option<RangeMOC<u64, Hpx<u64>>> = None;
+  for txt in ["3/1", "3/1 3", "3/1 3 5", "3/1-2 5", "3/"] {
+    let ccr = from_ascii_ivoa::<u64, Hpx<u64>>(txt).unwrap();
+    let it = ccr.into_cellcellrange_moc_iter().ranges();
+    println!("{:?}: ranges-from-cellcellranges size_hint={:?}", txt, it.size_hint());
+    let mut buf = Vec::new();
+    let r = it.to_fits_ivoa(None, None, &mut buf);
+    println!("   to_fits: {:?} ({} bytes)", r.map_err(|e| e.to_string()), buf.len());
+    // cells
+    let ccr = from_ascii_ivoa::<u64, Hpx<u64>>(txt).unwrap();
+    let rm: RangeMOC<u64, Hpx<u64>> = ccr.into_cellcellrange_moc_iter().ranges().into_range_moc();
+    let d = rm.depth_max(); let cells: Vec<moc::elem::cell::Cell<u64>> = rm.into_range_moc_iter().cells().collect();
+    let cm = moc::moc::cell::CellMOC::<u64, Hpx<u64>>::new(d, moc::elemset::cell::MocCells::new(moc::elemset::cell::Cells::new(cells)));
+    let it = cm.into_cell_moc_iter().ranges();
+    println!("   ranges-from-cells size_hint={:?}", it.size_hint());
+    let mut buf = Vec::new();
+    let r = it.to_fits_ivoa(None, None, &mut buf);
+    println!("   to_fits: {:?} ({} bytes)", r.map_err(|e| e.to_string()), buf.len());
+  }
+  let _a: Option<RangeMOC<u64, Time<u64>>> = None; let _ = Ranges::<u64>::new_unchecked(vec![]);
 }
